@@ -60,6 +60,9 @@ ANGLES["recovery"] = "exception safety and recovery. Many public calls can legit
 ANGLES["time"] = "time and calendar edge cases. Look at how timestamps are compared, bucketed, converted and subtracted: timezone-aware versus naive timestamps, daylight-saving transitions, leap days and leap years, month / quarter / year boundaries, weekends and holidays, timestamps that differ by microseconds, several events with exactly the same timestamp, dates before 1970 or after 2038 / 2100, pandas Timestamp versus datetime versus numpy datetime64, day counts (365 / 365.25 / 366 / 252) - and find a change that is invisible on an ordinary daily business-day series of one year but wrong at one of these."
 ANGLES["combos"] = "interactions between two optional features. Each optional argument or feature is usually tested alone. Look for changes that are invisible when any single option is used but wrong for a particular COMBINATION of two: latency with steps_delay, episode_length with folds or sampling_span, markov_reset with warmup, fit_transformers with folds, futures chains with a trading threshold or with whole-lot trading, fees with number-of-contract targets, a reference rate with margined contracts, DataFrame inputs with a risk-free series, window with stride, and so on."
 
+ANGLES["extension"] = "user extension points and duck typing. The library is meant to be extended: users write their own contracts (subclasses of AbstractContract / Asset / Future with their own multiplier, margin_requirement, cash_requirement, symbol, expiry), their own events (subclasses of IEvent / EventNBBO with extra fields), their own features and states (Feature / IState subclasses with process_<Event> callbacks, parse, spaces, transformers), their own rewards (AbstractReward subclasses that read the environment), their own action spaces (PortfolioSpace subclasses overriding _make_allocation / make_rebalancing_request / null_action), their own fee schedules (IBrokerFees subclasses) and policies (AbstractPolicy for backtest). Look for changes that keep every built-in class working identically but are wrong for a legitimate user-defined subclass or duck-typed object: an isinstance test against a concrete built-in class, a name / symbol / class-name used as key instead of the object, an attribute read from the class instead of the instance (or once at construction instead of at use), a method of the base class called instead of the (overridden) one of the object, a property assumed constant, an assumption about __eq__ / __hash__ / ordering of user contracts, a callback signature assumption."
+ANGLES["scale"] = "size, ordering and multiplicity. Most examples use one to three contracts, one feature, a few dozen timesteps. Look for changes that are invisible at that size but wrong with MANY or with a particular ORDER or MULTIPLICITY: more than a handful of contracts in a portfolio (ordering of contracts vs ordering of weights, sorted vs insertion order, dict / set iteration order, symbols that sort differently as strings vs objects, two contracts whose symbols share a prefix), contracts listed twice, many events on one timestamp, several event types interleaved on the same instant, several features subscribing to the same event, several observers, long episodes (hundreds of steps: accumulating float error, deque / list growth, recursion), very short ones (one or two timesteps), very many folds, very large or very small monetary scales (1e-6 .. 1e12), prices spanning orders of magnitude across contracts."
+
 ALSO = {
     "C09": "Also already known on the unchanged code (not what you are asked for): TradingEnv.step lets EndOfEpisodeError escape from the reward computation when the account is insolvent at the end of a step; a decision whose own trading costs push NLV <= 0 raises from Broker.rebalance after trading.",
     "C10": "Also already known on the unchanged code (not what you are asked for): environments built without `state` share the default IState() instance; building a portfolio space over a FutureChain while AbstractContract.now is outside the chain's span raises IndexError.",
